@@ -102,7 +102,7 @@ static inline FlexPath* gen_simple_path(Rng& g, const GenOpts& o) {
     fp->num_elements = 1;
     fp->elements = (FlexPathElement*)allocate_clear(sizeof(FlexPathElement));
     int64_t x = g.range(-o.coord_range, o.coord_range), y = g.range(-o.coord_range, o.coord_range);
-    double width = (double)(2 * g.below(40)) * o.grid;  // even number of grid units: half width exact
+    double width = (double)g.below(80) * o.grid;  // odd widths too: the writer must round the FULL width, not twice the half width
     fp->init(Vec2{x * o.grid, y * o.grid}, width, 0, 1e-9, make_tag((uint32_t)g.below(60), (uint32_t)g.below(60)));
     fp->simple_path = true;
     fp->scale_width = width == 0 ? true : g.coin();  // a zero-width path re-loads with scale_width = true
